@@ -194,10 +194,29 @@ def _r2(ctx):
             rdef = [a_ for a_ in l.body if isinstance(a_, ast.Assign) and pm.match("1 / %s" % l.target.id, a_.value) is not None]
             if len(rdef) == 1:
                 cand = (l, U(rdef[0].targets[0]), num(br["M_lo"]), num(br["M_hi"]))
-    ctx.judge(cand is not None and cand[2] == 1 and cand[3] == 11, cand is not None and cand[2] is not None and cand[3] is not None, "R2",
-              "throughput candidates = 1/n, n in range(1, 11)", tf.where(cand[0]) if cand else tf.where(),
-              "throughput candidates are 1/n for n in range(%s, %s), not range(1, 11)" % (cand[2], cand[3]) if cand else "no candidate loop",
-              tf.qname, "reciprocals")
+    if cand is None:
+        # no enumeration of the ten candidates: the reciprocal computed from the measurement, n = round(1 / m) - it must be
+        # clamped to 1..10 on both sides, otherwise a measurement below 1/10.5 is snapped to an invented 1/n with n > 10
+        rnd = [c for c in ast.walk(tf.node) if isinstance(c, ast.Call) and isinstance(c.func, ast.Name) and c.func.id == "round"
+               and c.args and pm.match("1 / M_m", c.args[0]) is not None]
+        if rnd:
+            txt_ = U(tf.node)
+            upper = any(isinstance(c, ast.Call) and isinstance(c.func, ast.Name) and c.func.id == "min" and any(num(a_) == 10 for a_ in c.args)
+                        for c in ast.walk(tf.node)) or any(isinstance(c, ast.Compare) and any(num(x_) in (10, 11) for x_ in [c.left] + c.comparators)
+                                                           for c in ast.walk(tf.node))
+            if not upper:
+                ctx.node_bad("R2", tf, rnd[0], "the throughput candidate is 1/n with n = `%s` and no upper bound: a measurement below about 0.095 "
+                             "cycles is snapped to a reciprocal 1/n with n > 10 (0.083 -> 1/12) instead of being recorded as missing; the "
+                             "documented candidates are 1/n for n = 1..10" % U(rnd[0])[:60], instance="throughput candidates = 1/n, n in range(1, 11)")
+                cand = "reported"
+    if cand == "reported":
+        cand = None
+        pass
+    else:
+      ctx.judge(cand is not None and cand[2] == 1 and cand[3] == 11, cand is not None and cand[2] is not None and cand[3] is not None, "R2",
+                "throughput candidates = 1/n, n in range(1, 11)", tf.where(cand[0]) if cand else tf.where(),
+                "throughput candidates are 1/n for n in range(%s, %s), not range(1, 11)" % (cand[2], cand[3]) if cand else "no candidate loop",
+                tf.qname, "reciprocals")
     tp = [n for n in ast.walk(cand[0]) if isinstance(n, ast.If) and C.bounds_on(n.test, tm) is not None] if cand else []
     if tp:
         r = cand[1]
